@@ -93,6 +93,8 @@ class Interp:
         self.unknown = []       # constructs outside the fragment (reported as inconclusive by rules that need them)
         self.config = config or {}
         self.aliases = []
+        self.lambdas = {}
+        self.frames = {}
         self.lpstore = {}      # id -> current value of a mutable LpAffineExpression object (PuLP's += is in place)
         ENUM_CLASSES.update(c for c in repo.classes if self._is_enum(c))
 
@@ -123,6 +125,7 @@ class Interp:
             else:
                 env[p] = S(p)
         fr = Frame(func, env)
+        self.init_generator(func, fr)
         out = []
         old = self.sink
         self.sink = out
@@ -132,7 +135,22 @@ class Interp:
             self.sink = old
         return out, self.retval(fr)
 
+    @staticmethod
+    def is_generator(func):
+        for n in ast.walk(func.node):
+            if isinstance(n, (ast.Yield, ast.YieldFrom)):
+                return True
+        return False
+
+    def init_generator(self, func, fr):
+        if self.is_generator(func):
+            fr.env['__yield__'] = ('list', ())
+            fr.defdepth['__yield__'] = 0
+            fr.is_gen = True
+
     def retval(self, fr):
+        if getattr(fr, 'is_gen', False):
+            return fr.env['__yield__']
         if not fr.returns:
             return NONE
         if any(inl for _, _, inl in fr.returns):
@@ -152,8 +170,32 @@ class Interp:
 
     def lookup(self, name, fr):
         if name in fr.env:
-            return self.deref(fr.env[name])
+            v = fr.env[name]
+            if v[0] == 'ref':
+                return self.lookup(v[2], self.frames[v[1]])
+            return self.deref(v)
         return S(name)
+
+    def callee_mutates(self, target, param):
+        for n in ast.walk(target.node):
+            if isinstance(n, ast.Call) and isinstance(n.func, ast.Attribute) and n.func.attr in ('append', 'extend', 'update', 'insert', 'pop', 'remove', 'sort'):
+                v = n.func.value
+                while isinstance(v, ast.Subscript):
+                    v = v.value
+                if isinstance(v, ast.Name) and v.id == param:
+                    return True
+            if isinstance(n, (ast.Assign, ast.AugAssign)):
+                for t in (n.targets if isinstance(n, ast.Assign) else [n.target]):
+                    if isinstance(t, ast.Subscript) and isinstance(t.value, ast.Name) and t.value.id == param:
+                        return True
+            if isinstance(n, ast.Call):
+                for a in n.args:
+                    if isinstance(a, ast.Name) and a.id == param:
+                        fname = n.func.attr if isinstance(n.func, ast.Attribute) else (n.func.id if isinstance(n.func, ast.Name) else None)
+                        cands = list(self.repo.funcs_by_name.get(fname, [])) + [c[fname] for c in self.repo.classes.values() if fname in c]
+                        if cands and target not in cands:
+                            return True      # conservatively: passed on to another repository function
+        return False
 
     def deref(self, v):
         if v[0] == 'lpref':
@@ -191,7 +233,7 @@ class Interp:
             return BIN(type(n.op).__name__, self.ex(n.left, fr), self.ex(n.right, fr))
         if isinstance(n, ast.UnaryOp):
             if isinstance(n.op, ast.Not):
-                return NOT(self.ex(n.operand, fr))
+                return NOT(as_cond(self.ex(n.operand, fr)))
             v = self.ex(n.operand, fr)
             if isinstance(n.op, ast.USub) and is_num(v):
                 return C(-v[1])
@@ -214,13 +256,34 @@ class Interp:
         if isinstance(n, ast.Dict):
             return ('dict', tuple((self.ex(k, fr), self.ex(v, fr)) for k, v in zip(n.keys, n.values)))
         if isinstance(n, ast.IfExp):
-            c = self.ex(n.test, fr)
+            c = as_cond(self.ex(n.test, fr))
             if c == TRUE:
                 return self.ex(n.body, fr)
             if c == FALSE:
                 return self.ex(n.orelse, fr)
             return ('ite', c, self.ex(n.body, fr), self.ex(n.orelse, fr))
-        if isinstance(n, (ast.ListComp, ast.GeneratorExp)):
+        if isinstance(n, (ast.ListComp, ast.GeneratorExp, ast.SetComp)) and len(n.generators) == 1:
+            dom0 = self.ex(n.generators[0].iter, fr)
+            if is_literal_seq(dom0):
+                out = []
+                ok = True
+                for el in dom0[1]:
+                    env2 = dict(fr.env)
+                    fr2 = Frame(fr.func, env2)
+                    fr2.cls = fr.cls
+                    self.bind(n.generators[0].target, el, env2)
+                    g = TRUE
+                    for c in n.generators[0].ifs:
+                        g = AND(g, as_cond(self.ex(c, fr2)))
+                    if g == FALSE:
+                        continue
+                    if g != TRUE:
+                        ok = False
+                        break
+                    out.append(self.ex(n.elt, fr2))
+                if ok:
+                    return ('list', tuple(out))
+        if isinstance(n, ast.DictComp):
             env2 = dict(fr.env)
             fr2 = Frame(fr.func, env2)
             fr2.cls = fr.cls
@@ -232,7 +295,47 @@ class Interp:
                 for c in g.ifs:
                     guard = AND(guard, self.ex(c, fr2))
                 chain.append((b, guard))
-            return ('comp', tuple(chain), self.ex(n.elt, fr2))
+            return ('dictcomp', tuple(chain), self.ex(n.key, fr2), self.ex(n.value, fr2))
+        if isinstance(n, (ast.ListComp, ast.GeneratorExp, ast.SetComp)):
+            env2 = dict(fr.env)
+            fr2 = Frame(fr.func, env2)
+            fr2.cls = fr.cls
+            chain = []
+            for g in n.generators:
+                dom = self.ex(g.iter, fr2)
+                sp = splice_domain(dom)
+                if sp is not None:
+                    # generator over a comprehension: splice its binder chain in and bind the target to its element
+                    chain.extend(sp[0])
+                    self.bind(g.target, sp[1], fr2.env)
+                    guard = TRUE
+                    for c in g.ifs:
+                        guard = AND(guard, as_cond(self.ex(c, fr2)))
+                    if guard != TRUE:
+                        bb, gg = chain[-1]
+                        chain[-1] = (bb, AND(gg, guard))
+                    continue
+                b = self.bind_loop_target(g.target, dom, fr2.env)
+                guard = TRUE
+                for c in g.ifs:
+                    guard = AND(guard, as_cond(self.ex(c, fr2)))
+                chain.append((b, guard))
+            # effects of evaluating the element (e.g. LpVariable declarations) happen once per iteration
+            old, tmp = self.sink, []
+            self.sink = tmp
+            try:
+                elt = self.ex(n.elt, fr2)
+            finally:
+                self.sink = old
+            if tmp:
+                body = tmp
+                for b, g in reversed(chain):
+                    if g != TRUE:
+                        body = [Eff('if', fr.func, n, cond=g, then=body, orelse=[], ctrl=(None, None))]
+                    body = [Eff('for', fr.func, n, binder=b, body=body, lid=next(self.ids), pre={})]
+                for e in body:
+                    self.emit(e)
+            return ('comp', tuple(chain), elt)
         if isinstance(n, ast.JoinedStr):
             parts = []
             for v in n.values:
@@ -244,7 +347,9 @@ class Interp:
         if isinstance(n, ast.Call):
             return self.call(n, fr)
         if isinstance(n, ast.Lambda):
-            return TOP('lambda')
+            lid = next(self.ids)
+            self.lambdas[lid] = (n, dict(fr.env), fr.func, fr.cls)
+            return ('lambda', lid)
         raise Unknown('expression ' + type(n).__name__ + ': ' + src(n)[:60])
 
     def bind_loop_target(self, tgt, dom, env):
@@ -252,13 +357,28 @@ class Interp:
         hint = tgt.id if isinstance(tgt, ast.Name) else 'it'
         if dom[0] == 'call' and dom[1] == S('enumerate') and isinstance(tgt, ast.Tuple) and len(tgt.elts) == 2:
             inner = dom[2][0]
+            start = dom[2][1] if len(dom[2]) > 1 else dict(dom[3]).get('start', C(0))
+            if inner[0] == 'call' and inner[1] == S('zip') and isinstance(tgt.elts[1], ast.Tuple):
+                b = self.bind_zip(tgt.elts[1], inner, env)
+                self.bind(tgt.elts[0], simp(BIN('Add', b, start)) if start != C(0) else b, env)
+                return b
             h2 = tgt.elts[1].id if isinstance(tgt.elts[1], ast.Name) else 'it'
             b = self.new_binder(inner, h2)
-            self.bind(tgt.elts[0], ('indexof', b), env)
+            self.bind(tgt.elts[0], ('indexof', b) if start == C(0) else simp(BIN('Add', ('indexof', b), start)), env)
             self.bind(tgt.elts[1], b, env)
             return b
+        if dom[0] == 'call' and dom[1] == S('zip') and isinstance(tgt, (ast.Tuple, ast.List)) and len(tgt.elts) == len(dom[2]):
+            return self.bind_zip(tgt, dom, env)
         b = self.new_binder(dom, hint)
         self.bind(tgt, b, env)
+        return b
+
+    def bind_zip(self, tgt, dom, env):
+        """for a, b in zip(X, Y)  ==  for i in range(len(X)): a, b = X[i], Y[i]   (parallel lists of equal length)"""
+        first = dom[2][0]
+        b = self.new_binder(CALL(S('range'), [CALL(S('len'), [first])]), 'zi')
+        for e, seq in zip(tgt.elts, dom[2]):
+            self.bind(e, self.load(I(seq, b)), env)
         return b
 
     def bind(self, tgt, val, env, fr=None):
@@ -301,6 +421,20 @@ class Interp:
             if target is not None:
                 return self.inline(target, recv, args, kw, fr, n)
             return CALL(A(recv, meth), args, kw)
+        if isinstance(f, (ast.Name, ast.Subscript, ast.Call)) and not (isinstance(f, ast.Name) and f.id not in fr.env):
+            fv = self.ex(f, fr)
+            if fv[0] == 'lambda':
+                node, env0, lfunc, lcls = self.lambdas[fv[1]]
+                env2 = dict(env0)
+                for p, a in zip([x.arg for x in node.args.args], args):
+                    env2[p] = a
+                fr2 = Frame(lfunc, env2)
+                fr2.cls = lcls
+                return self.ex(node.body, fr2)
+            if fv[0] == 'attr' and (fv[1] == fr.env.get('self') or fv[1][0] == 'obj'):
+                target = self.resolve_method(fv[1], fv[2], len(args) + len(kw), fr)
+                if target is not None:
+                    return self.inline(target, fv[1], args, kw, fr, n)
         if isinstance(f, ast.Name):
             name = f.id
             if name not in fr.env:
@@ -391,6 +525,15 @@ class Interp:
             dmap[p.arg] = d
         for p, a in zip(params, args):
             env[p] = a
+        # a caller's local list passed by name is the SAME object in the callee: mutations must reach the caller's variable
+        for p, an in zip(params, [x for x in n.args if not isinstance(x, ast.Starred)]):
+            if isinstance(an, ast.Name) and an.id in fr.env:
+                cv = fr.env[an.id]
+                if cv[0] == 'ref':
+                    env[p] = cv
+                elif cv[0] in ('list', 'comp', 'cat', 'accum', 'upd', 'carried', 'prefix', 'dict', 'dictcomp') and self.callee_mutates(target, p):
+                    self.frames[id(fr)] = fr
+                    env[p] = ('ref', id(fr), an.id)
         for k, v in kw:
             env[k] = v
         fr2 = Frame(target, env)
@@ -401,6 +544,7 @@ class Interp:
                 else:
                     env[p] = TOP('missing-arg ' + p)
         fr2.defdepth = {k: 0 for k in env}
+        self.init_generator(target, fr2)
         body = []
         old = self.sink
         self.sink = body
@@ -451,6 +595,11 @@ class Interp:
         return name in fr.env and fr.defdepth.get(name, 0) < fr.loopdepth
 
     def stmt(self, s, fr):
+        if isinstance(s, ast.Expr) and isinstance(s.value, ast.Yield):
+            if '__yield__' not in fr.env:
+                raise Unknown('yield outside a recognised generator')
+            self.accumulate('__yield__', 'append', None, self.ex(s.value.value, fr) if s.value.value is not None else NONE, fr, s)
+            return
         if isinstance(s, ast.Expr):
             if isinstance(s.value, ast.Constant):
                 return
@@ -463,6 +612,12 @@ class Interp:
                 self.accumulate(name, v.func.attr, None, val, fr, s)
                 return
             n0 = len(self.sink)
+            if (isinstance(v, ast.Call) and isinstance(v.func, ast.Attribute) and v.func.attr in ('append', 'extend') and len(v.args) == 1
+                    and isinstance(v.func.value, ast.Subscript) and isinstance(v.func.value.value, ast.Name) and v.func.value.value.id in fr.env
+                    and fr.env[v.func.value.value.id][0] not in ('sym', 'attr', 'bvar', 'idx') and not isinstance(v.func.value.slice, ast.Slice)):
+                # local[k].append(x): scatter into a local list of lists
+                self.accumulate(v.func.value.value.id, v.func.attr + 'idx', self.ex(v.func.value.slice, fr), self.ex(v.args[0], fr), fr, s)
+                return
             t = self.ex(v, fr)
             if (isinstance(v, ast.Call) and isinstance(v.func, ast.Attribute) and v.func.attr in ('append', 'extend')
                     and t[0] == 'call' and len(t[2]) == 1):
@@ -608,6 +763,9 @@ class Interp:
             self.emit(Eff('setobj', fr.func, s, recv=prob, expr=v, name=name))
 
     def accumulate(self, name, op, index, val, fr, s):
+        cur0 = fr.env.get(name)
+        if cur0 is not None and cur0[0] == 'ref':
+            return self.accumulate(cur0[2], op, index, val, self.frames[cur0[1]], s)
         if self.is_outer(name, fr):
             self.emit(Eff('acc', fr.func, s, var=name, op=op, index=index, value=val))
             cur = fr.env.get(name)
@@ -627,13 +785,13 @@ class Interp:
             fr.env[name] = cat(cur, ('list', (val,)))
         elif op == 'extend':
             fr.env[name] = cat(cur, val)
-        elif op in ('setidx', 'addidx'):
+        elif op in ('setidx', 'addidx', 'appendidx', 'extendidx'):
             fr.env[name] = ('upd', cur, op, index, val)
         else:
             fr.env[name] = simp(BIN(op, cur, val))
 
     def stmt_if(self, s, fr):
-        c = self.ex(s.test, fr)
+        c = as_cond(self.ex(s.test, fr))
         if c == TRUE:
             return self.block(s.body, fr)
         if c == FALSE:
@@ -700,10 +858,16 @@ class Interp:
                     for x in ast.walk(n.target):
                         if isinstance(x, ast.Name):
                             names.add(x.id)
+                elif isinstance(n, (ast.Yield, ast.YieldFrom)):
+                    names.add('__yield__')
+                elif isinstance(n, ast.Call) and isinstance(n.func, ast.Attribute) and n.func.attr in ('append', 'extend') \
+                        and isinstance(n.func.value, ast.Subscript) and isinstance(n.func.value.value, ast.Name):
+                    names.add(n.func.value.value.id)
         return names
 
-    def havoc_heap(self, stmts):
-        """Heap locations (by attribute name) stored inside a loop body are loop-carried: forget their values."""
+    def stored_attrs(self, stmts, seen=None):
+        """Attribute names stored by these statements or (transitively) by repository functions they call."""
+        seen = set() if seen is None else seen
         names = set()
         for st in stmts:
             for n in ast.walk(st):
@@ -712,6 +876,18 @@ class Interp:
                         for x in ast.walk(t):
                             if isinstance(x, ast.Attribute) and isinstance(x.ctx, ast.Store):
                                 names.add(x.attr)
+                elif isinstance(n, ast.Call):
+                    fname = n.func.attr if isinstance(n.func, ast.Attribute) else (n.func.id if isinstance(n.func, ast.Name) else None)
+                    if fname and fname not in seen:
+                        seen.add(fname)
+                        cands = list(self.repo.funcs_by_name.get(fname, [])) + [c[fname] for c in self.repo.classes.values() if fname in c]
+                        for c in cands:
+                            names |= self.stored_attrs(c.node.body, seen)
+        return names
+
+    def havoc_heap(self, stmts):
+        """Heap locations (by attribute name) stored inside a loop body are loop-carried: forget their values."""
+        names = self.stored_attrs(stmts)
         if names:
             for k in list(self.heap):
                 if k[0] == 'attr' and k[2] in names and k[1][0] != 'bvar':
@@ -723,6 +899,46 @@ class Interp:
             raise Unknown('for-else')
         if is_literal_seq(dom):
             return self.unroll(s, dom, fr)
+        sp = splice_domain(dom)
+        if sp is not None and isinstance(s.target, (ast.Name, ast.Tuple, ast.List)):
+            # for x in [v for b1 in D1 if g1 for b2 in D2 ...]:  ==  for b1 in D1: if g1: for b2 in D2: ...: x = v; body
+            chain, v = sp
+            def inner(k):
+                if k == len(chain):
+                    self.bind(s.target, v, fr.env, fr)
+                    for x in ast.walk(s.target):
+                        if isinstance(x, ast.Name):
+                            fr.defdepth[x.id] = fr.loopdepth
+                    self.block(s.body, fr)
+                    return
+                b, g = chain[k]
+                def body():
+                    if g == TRUE:
+                        inner(k + 1)
+                    else:
+                        fr.guards.append(g)
+                        out = self.sub_call(lambda: inner(k + 1))
+                        fr.guards.pop()
+                        self.emit(Eff('if', fr.func, s, cond=g, then=out, orelse=[], ctrl=(None, None)))
+                self.generic_loop(b, body, s, fr)
+            return inner(0)
+        def bind_and_run():
+            pass
+        self.generic_loop(None, None, s, fr, dom=dom)
+
+    def sub_call(self, fn):
+        out = []
+        old = self.sink
+        self.sink = out
+        try:
+            fn()
+        finally:
+            self.sink = old
+        return out
+
+    def generic_loop(self, binder, body_fn, s, fr, dom=None):
+        """One symbolic for-loop.  Either over an existing binder (spliced comprehension domain) with body_fn, or over
+        `dom` binding s.target and running s.body."""
         self.havoc_heap(s.body)
         lid = next(self.ids)
         pre = dict(fr.env)
@@ -732,12 +948,16 @@ class Interp:
             fr.env[k] = ('carried', k, lid)
         fr.loopdepth += 1
         fr.loops.append(lid)
-        b = self.bind_loop_target(s.target, dom, fr.env)
-        for x in ast.walk(s.target):
-            if isinstance(x, ast.Name):
-                fr.defdepth[x.id] = fr.loopdepth
         saved_ctrl = fr.ctrl
-        body = self.sub(s.body, fr)
+        if binder is None:
+            b = self.bind_loop_target(s.target, dom, fr.env)
+            for x in ast.walk(s.target):
+                if isinstance(x, ast.Name):
+                    fr.defdepth[x.id] = fr.loopdepth
+            body = self.sub(s.body, fr)
+        else:
+            b = binder
+            body = self.sub_call(body_fn)
         fr.ctrl = saved_ctrl
         fr.loops.pop()
         fr.loopdepth -= 1
@@ -804,6 +1024,21 @@ class Interp:
         self.loopinfo[wid] = e
         self.finish_loop(e, pre, carried, b, fr)
         self.emit(e)
+
+
+def splice_domain(dom):
+    """A loop / comprehension domain that is itself a comprehension: -> (chain, element value) or None."""
+    if dom[0] == 'cat':
+        parts = [p for p in dom[1] if p != ('list', ())]
+        if len(parts) == 1:
+            dom = parts[0]
+    if dom[0] == 'call' and dom[1] in (S('list'), S('tuple'), S('iter')) and len(dom[2]) == 1:
+        inner = splice_domain(dom[2][0])
+        if inner is not None:
+            return inner
+    if dom[0] == 'comp':
+        return dom[1], dom[2]
+    return None
 
 
 def A_base(t):
